@@ -36,7 +36,7 @@ def jsonable(x, depth=0):
 
 class Recorder:
     MAX_SAMPLES = 12
-    MAX_VIOL_PER_KEY = 3
+    MAX_VIOL_PER_KEY = int(__import__("os").environ.get("VMON_MAXV", "3"))
 
     def __init__(self, prop):
         self.prop = prop
